@@ -104,6 +104,9 @@ impl Number {
 
     /// Raises a value to a dimensionless integer power.
     pub fn powi(&self, exp: i32) -> Number {
+        if exp == 0 {
+            return Number::new(self.value.pow(exp));
+        }
         let unit = self
             .unit
             .iter()
